@@ -97,6 +97,11 @@ def cases(rng, tier):
             for fname in (None, "", "img", "a.b-c d"):
                 for cv in (_conv("", None, None), _conv("0", 6, None), _conv("+", 6, 6), _conv("-", 4, None)):
                     out.append(_segs(cv, pre, post, fname, [0, 42]))
+    for cv in (_conv("", None, None), _conv("0", 6, None), _conv("+", 6, 6), _conv("-0", 4, None), _conv(" ", None, 3, 1)):
+        for ext in (".jpg", ".jpeg", ".tiff"):
+            c = _segs(cv, None, [["lit", ext]], "img", [0, 42])
+            c["fmt"] = "jpeg"
+            out.append(c)
     # 4. format mini-language against CPython
     fills = [None, "x", "0", " "] if tier == "quick" else [None, "x", "0", " ", "<", "+", "d"]
     for fill in fills:
